@@ -234,8 +234,10 @@ def isend_axioms():
     s, y = z3.Const('s!ie', H), z3.Const('y!ie', H)
     a, b = z3.Const('a!ie', H), z3.Const('b!ie', H)
     upd = z3.Store(E, a, b, True)
-    return [z3.ForAll([E, s, y], z3.Implies(E[s, y], z3.And(isend(E, s), isend(E, y))), patterns=[E[s, y]]),
-            z3.ForAll([E, s], z3.Implies(isend(E, s), z3.Or(E[s, _w1(E, s)], E[_w2(E, s), s])), patterns=[isend(E, s)]),
+    # (the converse  E[s,y] -> isend(E,s) & isend(E,y)  is true as well but, as a quantified axiom
+    #  with trigger E[s,y], it forms a matching loop with the next one; it is not needed: the store
+    #  lemma below covers the only use, a relation extended by one pair)
+    return [z3.ForAll([E, s], z3.Implies(isend(E, s), z3.Or(E[s, _w1(E, s)], E[_w2(E, s), s])), patterns=[isend(E, s)]),
             # consequence of the two above for an extension by one pair (stated because
             # e-matching does not create select terms over a store by itself)
             z3.ForAll([E, a, b, s], isend(upd, s) == z3.Or(isend(E, s), s == a, s == b), patterns=[isend(upd, s)])]
